@@ -595,7 +595,7 @@ func (f *FSM) Restore(r io.Reader) error {
 		return err
 	}
 	f.sleep(f.opts.RestoreUs)
-	ev := mon.Event{Kind: mon.KRestore, Inst: f.ID, Num: int64(len(data)), Hash: mon.HashBytes(data)}
+	ev := mon.Event{Kind: mon.KRestore, Inst: f.ID, Num: int64(len(data)), Hash: mon.HashBytes(data), Via: gid.Get()}
 	if sf, ok := r.(*SnapFile); ok {
 		md := sf.Metadata()
 		ev.Idx, ev.Term = md.LastIncludedIndex, md.LastIncludedTerm
